@@ -141,7 +141,12 @@ class _Message(object):
         source_name = self.source_file or "[prelude]"
         if not self.location.is_synthetic and self.source_file in source_code:
             source_lines = source_code[self.source_file].splitlines()
-            source_line = source_lines[self.location.start.line - 1]
+            line_index = self.location.start.line - 1
+            if 0 <= line_index < len(source_lines):
+                source_line = source_lines[line_index]
+            else:
+                # E.g., an error at the end of input, one line past the last.
+                source_line = ""
         else:
             source_line = ""
         lines = self.message.splitlines()
